@@ -89,8 +89,18 @@ Fixpoint cache_get (s : bytes) (c : cache) : option centry :=
   end.
 
 (* what a Negotiate call returned: mask, rw != nil, err != nil *)
-Record outcome := mkO { o_mask : N; o_restart : bool; o_err : bool }.
-Definition default_outcome := mkO 0%N false false.
+(* what kind of io.ReadWriter a restarting Negotiate returned: a bare wrapper
+   (newConn puts it into a *conn, which has a ConnectionState method), the
+   session's own connection (sasl.go returns s.Conn()), a net.Conn without a
+   ConnectionState method, a net.Conn with one (a TLS-like layer).
+   negotiateSession's restart block only renews conn, connState, decoder and
+   encoder and empties the per-stream maps: whatever the kind, it leaves the
+   state bits alone (only the mask is or-ed in) — the model has no case on it,
+   which is what the theorems about state bits then say for every kind. *)
+Inductive rwkind := RWWrap | RWSame | RWPlain | RWTls.
+
+Record outcome := mkO { o_mask : N; o_restart : bool; o_err : bool; o_rw : rwkind }.
+Definition default_outcome := mkO 0%N false false RWWrap.
 
 (* s.state &^= Ready *)
 Definition clear_ready (b : N) : N := N.ldiff b st_Ready.
@@ -310,11 +320,11 @@ Definition is_proceed (r : option pitem) : bool :=
 Definition starttls_negotiate (c : config) (m : mstate) : mstate * outcome :=
   if server m then
     (emit (ESwitch (tls_name c)) (switch_layer (emit (EOut (WElem ns_StartTLS str_proceed)) m)),
-     mkO st_Secure true false)
+     mkO st_Secure true false RWTls)
   else
     let '(m2, r) := read RPReply (emit (EOut (WElem ns_StartTLS str_starttls)) m) in
-    if is_proceed r then (emit (ESwitch (tls_name c)) (switch_layer m2), mkO st_Secure true false)
-    else (m2, mkO 0%N false true).
+    if is_proceed r then (emit (ESwitch (tls_name c)) (switch_layer m2), mkO st_Secure true false RWTls)
+    else (m2, mkO 0%N false true RWWrap).
 
 (* one Negotiate call; the ENeg event records the state bits at the call *)
 Definition negotiate_one (c : config) (m : mstate) (f : feature) : mstate * outcome :=
@@ -614,8 +624,11 @@ Definition raw (e : event) : revent :=
 
 (* ---- decidable equality of raw events (for the case files) ---- *)
 
+Definition rwkind_eqb (a b : rwkind) : bool :=
+  match a, b with RWWrap, RWWrap | RWSame, RWSame | RWPlain, RWPlain | RWTls, RWTls => true | _, _ => false end.
 Definition outcome_eqb (a b : outcome) : bool :=
-  N.eqb (o_mask a) (o_mask b) && Bool.eqb (o_restart a) (o_restart b) && Bool.eqb (o_err a) (o_err b).
+  N.eqb (o_mask a) (o_mask b) && Bool.eqb (o_restart a) (o_restart b) && Bool.eqb (o_err a) (o_err b) &&
+  rwkind_eqb (o_rw a) (o_rw b).
 
 Fixpoint list_eqb {A} (eq : A -> A -> bool) (a b : list A) : bool :=
   match a, b with
